@@ -209,11 +209,12 @@ struct SvFtor
         return sv;
     }
 };
-struct Node; struct MNode; struct XNode; struct PNode; struct INode;
+struct Node; struct MNode; struct XNode; struct PNode; struct INode; struct ANode;
 template<typename V> struct TokOf { using type = Tok; };
 template<> struct TokOf<Node> { using type = LTok; };
 template<> struct TokOf<XNode> { using type = LTok; };
 template<> struct TokOf<INode> { using type = LTok; };
+template<> struct TokOf<ANode> { using type = LTok; };
 template<> struct TokOf<MNode> { using type = MTok; };
 template<typename V> using TokFtorFor = TokFtorT<typename TokOf<V>::type>;
 
@@ -252,6 +253,30 @@ template<typename V> using TokFtorFor = TokFtorT<typename TokOf<V>::type>;
     uint64_t get_digest() const { return digest; }                                                   \
     uint64_t get_sdigest() const { return sdigest; }
 
+#define SIM_NODE_COMMON_NO_MOVE_ASSIGN(Self)                                                                        \
+    int rule = -1;                                                                                   \
+    uint64_t digest = 0;                                                                             \
+    uint64_t sdigest = 0; /* structure only: no source points */                                     \
+    uint32_t vid = 0;                                                                                \
+    bool mf = false; /* moved-from */                                                                \
+    int depth = 0; /* nesting of kept kids (bounded, see Builder::add) */                             \
+    std::string text; /* human-readable form (diagnostics) */                                        \
+    std::vector<Self> kids;                                                                          \
+    Self() : digest(empty_default_digest()), sdigest(empty_default_digest()), text("()") { vid = simrt::node_new(this); } \
+    ~Self() { simrt::node_del(this, vid, !mf); }                                                     \
+    Self(Self&& o) noexcept(true)                                                           \
+        : rule(o.rule), digest(o.digest), sdigest(o.sdigest), vid(o.vid), mf(o.mf), depth(o.depth), text(std::move(o.text)), kids(std::move(o.kids)) \
+    {                                                                                                \
+        o.mf = true;                                                                                 \
+        simrt::node_move(this, vid);                                                                 \
+    }                                                                                                \
+    static constexpr bool keeps_text = true;                                                         \
+    static constexpr bool keeps_kids = true;                                                   \
+    static constexpr bool is_ledgered = true;                                                        \
+    uint64_t get_digest() const { return digest; }                                                   \
+    uint64_t get_sdigest() const { return sdigest; }
+
+
 // copyable: a library-side copy is possible and is what the ledger must report
 struct Node
 {
@@ -289,6 +314,25 @@ struct XNode
         vid = simrt::node_copy(this, o.vid);
     }
     XNode& operator=(const XNode& o)
+    {
+        if (this == &o) return *this;
+        simrt::node_assign_over(this, vid, !mf);
+        rule = o.rule; digest = o.digest; sdigest = o.sdigest; mf = o.mf; depth = o.depth; text = o.text; kids = o.kids;
+        vid = simrt::node_copy(this, o.vid);
+        return *this;
+    }
+};
+
+// copyable and move-CONSTRUCTIBLE, but with a copy assignment only (rule of three plus a move constructor): whenever the
+// library ASSIGNS a value where it used to construct one, the assignment is a copy (S111)
+struct ANode
+{
+    SIM_NODE_COMMON_NO_MOVE_ASSIGN(ANode)
+    ANode(const ANode& o) : rule(o.rule), digest(o.digest), sdigest(o.sdigest), mf(o.mf), depth(o.depth), text(o.text), kids(o.kids)
+    {
+        vid = simrt::node_copy(this, o.vid);
+    }
+    ANode& operator=(const ANode& o)
     {
         if (this == &o) return *this;
         simrt::node_assign_over(this, vid, !mf);
